@@ -85,6 +85,13 @@ broken translator obligation):
                `d.keys()` as iterables of comprehensions, `{k: e for k, v in iteritems(d)}` (the key must be the
                iterated key: order and uniqueness are kept), `any(c for v in ...)` / `all(...)`, `d[k] += e` /
                `d[k] -= e` (KeyError when absent).  "rec:a,b.c": a record parameter with (dotted) int attributes.
+  floats     : parameter / result type "float"; `2.0 ** n`, `a * b` with a float operand (an int operand goes through
+               `float(k)`), `float(x)`, `int(x)` of a float.  They become calls of the fields of a parameter
+               `F : PyFloatOps φ` of the generated definition (`pow2`, `mul`, `ofInt`, `toInt`; the last three and
+               `pow2` may raise OverflowError): the float SEMANTICS is not the translator's, the companion module
+               instantiates it with the IEEE-754 model of Model/C16.
+  currying   : a ptypes entry "->g" after the outer parameter types: `def f(a): ...; def g(x): ...; return g` is
+               translated as the function of both parameter lists (the closure applied).
   events     : return type `ev:<t>`: calls of the methods in EVENT_CALLS (`warnings.warn`, `self._parent._perform_read`,
                `self._parent._perform_write`) are recorded, in order, in a list of `PyEvent` (name, integer arguments,
                bytes argument; the arguments of `warn` - a message - are not modelled) that is the LAST component of
@@ -242,6 +249,8 @@ FUNCS = [
     ("rig/place_and_route/place/utils.py", "overallocated", ["dict"], "bool"),
     ("rig/place_and_route/place/utils.py", "resources_after_reservation",
      ["dict", "rec:resource,reservation.start,reservation.stop"], "exc:dict"),
+    ("rig/type_casts.py", "float_to_fp", ["bool", "int", "int", "->bitsk", "float"], "exc:int"),
+    ("rig/type_casts.py", "fp_to_float", ["int", "->kbits", "int"], "exc:float"),
     ("rig/machine_control/regions.py", "RegionCoreTree.__init__",
      ["obj:base_x,base_y,scale,shift,level;skip:locally_selected,subregions", "int", "int", "int"], "none"),
 ]
@@ -281,7 +290,7 @@ CONSTRUCTORS = {"SlicedMemoryIO": (1, 2)}
 BASE_TY = {"bytes": "List Int", "int": "Int", "tup2": "Int × Int", "tup3": "Int × Int × Int", "slice": "Int × Int", "bool": "Bool",
            "optnn": "Option (Nat × Nat)", "none": "Unit", "optint": "Option Int",
            "oslice": "Option Int × Option Int × Option Int", "list:int": "List Int", "list:tup2": "List (Int × Int)",
-           "dict": "List (Int × Int)"}
+           "dict": "List (Int × Int)", "float": "φ"}
 
 PRELUDE = '''/-! ### run-time support of the generated definitions (fixed text) -/
 
@@ -391,6 +400,19 @@ def pyDictUpd : List (Int × Int) → Int → (Int → Int) → Except String (L
   | [], _, _ => Except.error "KeyError"
   | (k', v) :: t, k, f =>
     if k' = k then Except.ok ((k', f v) :: t) else (pyDictUpd t k f).map (fun r => (k', v) :: r)
+
+/-- the operations on Python floats used by translated code.  Generated definitions that compute with floats are
+parametric in their semantics `F`; the companion modules instantiate it with the IEEE-754 double model of
+Model/C16.lean (whose facts are that model's trusted base, not the translator's) -/
+structure PyFloatOps (φ : Type) where
+  /-- `2.0 ** n` for an int `n` (OverflowError) -/
+  pow2 : Int → Except String φ
+  /-- `float(k)` for an int `k` (OverflowError: int too large to convert to float) -/
+  ofInt : Int → Except String φ
+  /-- `a * b` -/
+  mul : φ → φ → φ
+  /-- `int(x)`: truncation toward zero (OverflowError for an infinity) -/
+  toInt : φ → Except String Int
 
 /-- Python `int(math.sqrt(n))` (integer square root, exact below 2^52; `ValueError: math domain error` for n < 0) -/
 def pyIsqrt (n : Int) : Except String Int :=
@@ -532,6 +554,7 @@ class Tr(object):
         self.uses_fuel = False
         self.fn = None
         self.nloops = 0
+        self.uses_float = False       # the definition takes the float semantics `F : PyFloatOps φ` as a parameter
         self.dicts = set()            # names holding a dict of ints (association list, unique keys, insertion order)
         self.optslices = set()        # local variables declared `optslice`
         self.local_obj = False        # the object is created by the function itself (`x = cls()`)
@@ -699,6 +722,13 @@ class Tr(object):
             return self.lty.get(ident(n.id), "Int")
         if isinstance(n, ast.Constant) and isinstance(n.value, bool):
             return "Bool"
+        if isinstance(n, ast.Constant) and isinstance(n.value, float):
+            return "φ"
+        if isinstance(n, ast.BinOp) and isinstance(n.op, (ast.Pow, ast.Mult)) and (
+                self.tyof(n.left) == "φ" or self.tyof(n.right) == "φ"):
+            return "φ"
+        if isinstance(n, ast.Call) and isinstance(n.func, ast.Name) and n.func.id == "float" and "float" not in self.lty:
+            return "φ"
         if isinstance(n, ast.Constant) and isinstance(n.value, bytes):
             return "List Int"
         if isinstance(n, ast.DictComp) or (isinstance(n, ast.Call) and isinstance(n.func, ast.Attribute)
@@ -893,7 +923,37 @@ class Tr(object):
             return "keys", ident(n.id)
         return None
 
+    def as_float(self, n):
+        """an operand of a float operation: a float as it is, an int through `float(k)` (OverflowError)"""
+        if self.tyof(n) == "φ":
+            return self.e(n)
+        if self.tyof(n) == "Int":
+            t = self.raising("(F.ofInt %s)" % self.e(n))
+            self.tmp_ty[t] = "φ"
+            return t
+        raise NotImplementedError("float operand of type " + self.tyof(n))
+
     def e(self, n):
+        # ---- Python floats: the operations of the `PyFloatOps` parameter `F` of the generated definition ----
+        if isinstance(n, ast.BinOp) and isinstance(n.op, ast.Pow) and isinstance(n.left, ast.Constant) \
+                and isinstance(n.left.value, float) and n.left.value == 2.0 and self.tyof(n.right) == "Int":
+            self.uses_float = True
+            t = self.raising("(F.pow2 %s)" % self.e(n.right))          # 2.0 ** n (OverflowError)
+            self.tmp_ty[t] = "φ"
+            return t
+        if isinstance(n, ast.BinOp) and isinstance(n.op, ast.Mult) and "φ" in (self.tyof(n.left), self.tyof(n.right)):
+            self.uses_float = True
+            a = self.as_float(n.left)
+            b = self.as_float(n.right)
+            return "(F.mul %s %s)" % (a, b)
+        if isinstance(n, ast.Call) and isinstance(n.func, ast.Name) and n.func.id == "float" and len(n.args) == 1 \
+                and not n.keywords and "float" not in self.lty:
+            self.uses_float = True
+            return self.as_float(n.args[0])
+        if isinstance(n, ast.Call) and isinstance(n.func, ast.Name) and n.func.id == "int" and len(n.args) == 1 \
+                and not n.keywords and self.tyof(n.args[0]) == "φ":
+            self.uses_float = True
+            return self.raising("(F.toInt %s)" % self.e(n.args[0]))     # int(x): truncation, OverflowError for inf
         # ---- dicts of ints (association lists with unique keys, in insertion order) ----
         if isinstance(n, ast.Call) and isinstance(n.func, ast.Attribute) and n.func.attr == "get" and len(n.args) == 2 \
                 and not n.keywords and self.dict_name(n.func.value):
@@ -2245,6 +2305,27 @@ def translate(repo, rel, fname, ptypes, ret, done=None):
         ret = "exc:int"
     tree = ast.parse(open(os.path.join(repo, rel)).read())
     fn, cls = find_def(tree, rel, fname)
+    if any(t.startswith("->") for t in ptypes):
+        # `def f(a): ...; def g(x): ...; return g`: translated as the function of both parameter lists
+        inner_name = [t for t in ptypes if t.startswith("->")][0][2:]
+        ptypes = [t for t in ptypes if not t.startswith("->")]
+        body = [x for x in fn.body if not (isinstance(x, ast.Expr) and isinstance(x.value, ast.Constant))]
+        if (len(body) < 2 or not isinstance(body[-2], ast.FunctionDef) or body[-2].name != inner_name
+                or not (isinstance(body[-1], ast.Return) and isinstance(body[-1].value, ast.Name)
+                        and body[-1].value.id == inner_name)):
+            raise NotImplementedError("%s does not end in `def %s(..): ...; return %s`" % (fname, inner_name, inner_name))
+        inner = body[-2]
+        ia = inner.args
+        if inner.decorator_list or ia.vararg or ia.kwarg or ia.kwonlyargs or ia.defaults:
+            raise NotImplementedError("%s: inner function %s" % (fname, inner_name))
+        outer_names = set(x.arg for x in fn.args.args) | set(
+            t.id for m in body[:-2] for w in ast.walk(m) if isinstance(w, (ast.Assign, ast.AugAssign))
+            for t in (w.targets if isinstance(w, ast.Assign) else [w.target]) if isinstance(t, ast.Name))
+        if any(x.arg in outer_names for x in ia.args):
+            raise NotImplementedError("%s: a parameter of %s hides a variable of the outer function" % (fname, inner_name))
+        fn = ast.FunctionDef(name=fn.name, args=ast.arguments(posonlyargs=[], args=fn.args.args + ia.args, vararg=fn.args.vararg,
+                             kwonlyargs=fn.args.kwonlyargs, kw_defaults=[], kwarg=fn.args.kwarg, defaults=[]),
+                             body=body[:-2] + inner.body, decorator_list=fn.decorator_list, lineno=fn.lineno)
     nested_def = fname.count(".") == 2
     if nested_def:
         cls = None
@@ -2423,6 +2504,8 @@ def translate(repo, rel, fname, ptypes, ret, done=None):
     if events:
         body = "  let out_ : List PyEvent := []\n" + body
     sig += ["(%s : %s)" % o for o in tr.oracles]
+    if tr.uses_float or "float" in ptypes:
+        sig = ["{φ : Type}", "(F : PyFloatOps φ)"] + sig
     if tr.uses_fuel:
         sig.append("(fuel : Nat)")
     assigns_state = any(tr_assigns_attr(n) for n in ast.walk(fn))
